@@ -406,6 +406,86 @@ def stage_strings_sql(ctx, rng, gverif):
     return {"n": nq, "bad": bad, "cases_a": len(cases), "cases_b": len(gcases)}
 
 
+def stage_ungrouped_distinct_sql(ctx, rng, gverif):
+    """ungrouped aggregates mixing DISTINCT and non-DISTINCT aggregates, including heap-owning states (max/min/first
+    over long text, string_agg): every aggregate state is combined into the global state exactly once and dropped
+    exactly once - a state merged twice doubles sums / counts / string_agg, a state dropped twice is a double free
+    (abort).  Exact expected values; partitions 1 and 4; several batch sizes."""
+    quick = ctx["tier"] == "quick"
+    n = 60
+    pool_s = ["alpha-long-string-value-%02d" % i for i in range(7)] + ["b", "cc", "exactly12byt"]
+    rows = []
+    for i in range(n):
+        a = None if rng.chance(12) else rng.below(9)
+        b = None if rng.chance(12) else rng.below(1000) - 300
+        t = None if rng.chance(15) else rng.choice(pool_s)
+        rows.append((a, b, t))
+    setup = ["create temp table u (a int, b int, s text)",
+             "insert into u values " + ", ".join("(%s, %s, %s)" % ("null" if a is None else a, "null" if b is None else b, sql_lit(t)) for a, b, t in rows)]
+    A = [a for a, _, _ in rows if a is not None]
+    B = [b for _, b, _ in rows if b is not None]
+    T = [t for _, _, t in rows if t is not None]
+
+    def I(x):
+        return "N" if x is None else "I%d" % x
+
+    def S(x):
+        return "N" if x is None else "S" + x
+
+    mx, mn = max(T, key=lambda x: x.encode()), min(T, key=lambda x: x.encode())
+    # (sql, [per-column expectation]): a cell string, or ("bag", sep, items) for string_agg, or ("member", set) for first()
+    qs = [
+        ("select count(distinct a), sum(b), count(*) from u", [I(len(set(A))), I(sum(B)), I(n)]),
+        ("select count(distinct a), sum(b), count(b), min(b), max(b) from u", [I(len(set(A))), I(sum(B)), I(len(B)), I(min(B)), I(max(B))]),
+        ("select sum(distinct a), count(*), count(a), sum(a) from u", [I(sum(set(A))), I(n), I(len(A)), I(sum(A))]),
+        ("select count(distinct a), max(s), min(s), count(s) from u", [I(len(set(A))), S(mx), S(mn), I(len(T))]),
+        ("select count(distinct s), max(s), sum(b), min(s) from u", [I(len(set(T))), S(mx), I(sum(B)), S(mn)]),
+        ("select count(distinct a), first(s), sum(b) from u", [I(len(set(A))), ("member", set(S(t) for _, _, t in rows)), I(sum(B))]),
+        ("select count(distinct a), string_agg(s, ','), sum(b), count(*) from u", [I(len(set(A))), ("bag", ",", sorted(T)), I(sum(B)), I(n)]),
+        ("select string_agg(distinct s, '|'), string_agg(s, '|'), count(distinct b) from u", [("bag", "|", sorted(set(T))), ("bag", "|", sorted(T)), I(len(set(B)))]),
+        ("select count(distinct a), count(distinct b), count(distinct s), sum(b), max(s), count(*) from u",
+         [I(len(set(A))), I(len(set(B))), I(len(set(T))), I(sum(B)), S(mx), I(n)]),
+        ("select max(s), count(distinct a) from u where a < 4", [S(max([t for a, _, t in rows if a is not None and a < 4 and t is not None], key=lambda x: x.encode(), default=None)),
+                                                               I(len(set(a for a in A if a < 4)))]),
+        ("select count(distinct a), sum(b), max(s), string_agg(s, ',') from u where false", [I(0), "N", "N", "N"]),
+    ]
+    cases = []
+    for parts in (1, 4):
+        for bs in ((2048, 7) if quick else (2048, 7, 2, 16)):
+            cases.append({"id": "u-%d-%d" % (parts, bs), "mode": "threaded", "threads": parts, "timeout_s": 60,
+                          "stmts": setup + ["set partitions to %d" % parts, "set batch_size to %d" % bs] + [q for q, _ in qs]})
+    res = common.run_harness(gverif, "sql", cases, timeout=600)
+    bad, nq = [], 0
+    for c, r in zip(cases, res):
+        rs = r.get("results")
+        if rs is None or len(rs) < len(c["stmts"]):
+            k = max(len(rs or []) - len(setup) - 2, 0)
+            bad.append({"what": "engine died in an ungrouped aggregate mixing DISTINCT and non-DISTINCT aggregates (an aggregate state combined / dropped twice)",
+                        "config": c["id"], "stmts": c["stmts"][:len(setup) + 2] + [qs[min(k, len(qs) - 1)][0]],
+                        "result": (str({k2: v for k2, v in r.items() if k2 != "results"}) + str((rs or [{}])[-1]))[:400]})
+            continue
+        for (q, want), out in zip(qs, rs[len(setup) + 2:]):
+            nq += 1
+            if not out.get("ok") or len(out["rows"]) != 1:
+                bad.append({"what": "ungrouped aggregate mixing DISTINCT and non-DISTINCT aggregates fails", "sql": q, "config": c["id"], "stmts": c["stmts"][:len(setup) + 2] + [q], "result": str(out)[:300]})
+                continue
+            got = out["rows"][0]
+            wrong = []
+            for j, (g, w) in enumerate(zip(got, want)):
+                if isinstance(w, tuple) and w[0] == "bag":
+                    ok = g != "N" and sorted(g[1:].split(w[1])) == w[2]
+                elif isinstance(w, tuple):
+                    ok = g in w[1]
+                else:
+                    ok = g == w
+                if not ok:
+                    wrong.append({"column": j, "got": g[:200], "want": w if not isinstance(w, tuple) else [w[0], str(sorted(w[-1]))[:200]]})
+            if wrong or len(got) != len(want):
+                bad.append({"what": "wrong value from an ungrouped aggregate mixing DISTINCT and non-DISTINCT aggregates (a state merged into the global state twice?)",
+                            "sql": q, "config": c["id"], "stmts": c["stmts"][:len(setup) + 2] + [q], "wrong": wrong})
+    return {"n": nq, "bad": bad, "cases": len(cases)}
+
+
 def stage_sql(gverif):
     """the one query-level observation of this model: a LIST sort key must fail cleanly (repaired 59d348515; it used
     to reach unimplemented!()) - a panic here is a violation"""
@@ -445,6 +525,9 @@ def run(ctx):
     sq = stage_strings_sql(ctx, rng, gverif)
     for m in sq["bad"][:15]:
         out["violations"].append({"what": m["what"], "replay": m, "no_input": False})
+    ud = stage_ungrouped_distinct_sql(ctx, rng, gverif)
+    for m in ud["bad"][:15]:
+        out["violations"].append({"what": m["what"], "replay": m, "no_input": False})
     sql, last, raw = stage_sql(gverif)
     listed = {k["id"]: k for k in common.known_findings()["known"] if k["property"] == PID}
     if last.get("ok"):
@@ -483,7 +566,8 @@ def run(ctx):
                          "extraction (ExtrOcamlBasic) + ocaml/layout.ml parsing/printing",
                          "the pointer-based readers/writers (row_layout.rs write_array / read_array, sort_layout.rs write_key_array, row_matcher.rs) are tied to the model only through the offsets they use; their own code is not modelled"],
         "theorems": obligations,
-        "evaluations": s["n"] + rt["n"] + sq["n"], "distinct_nontrivial": s["distinct"],
+        "evaluations": s["n"] + rt["n"] + sq["n"] + ud["n"], "distinct_nontrivial": s["distinct"],
+        "sql_ungrouped_distinct_mix": {"queries_checked": ud["n"], "engines": ud["cases"]},
         "row_collection_roundtrip": {"cases": rt["cases"], "strings": rt["n"]},
         "sql_strings_around_inline_threshold": {"queries_checked": sq["n"], "engines_a": sq["cases_a"], "engines_b": sq["cases_b"]},
         "rule": "one evaluation = one layout / append sequence / view batch / mask batch computed by the real code and by the extracted model, compared field by field "
@@ -504,6 +588,8 @@ def run(ctx):
         "agg_state_aligned assumes power-of-two alignments (Rust's align_of; checked on every observed state) and a buffer base that is a multiple of base_align (DbVec::new_uninit_with_align is not modelled)",
         "heap sizing is modelled for Utf8/Binary columns (compute_heap_sizes over validity, array selection and row selection; List/Struct are not-implemented errors in the code); "
         "the hash-join directory sizing (floating point load factor) is not modelled, only the mask arithmetic is",
+        "aggregate STATE lifetimes (each state combined into the global state once, dropped once) are not modelled: the ungrouped DISTINCT / non-DISTINCT family is an "
+        "implementation-side search with exact expected values (doubled sums / double frees show as wrong values or a dead engine)",
         "the string round trip model tracks WHICH union variant is written and read (inline / reference), not the bytes; the bytes are checked by the real RowCollection round trip and the SQL stage",
         "a row_capacity of 0 is never run on the real code (it would not terminate)"]
     out["wall"] = time.time() - t0
